@@ -14,11 +14,14 @@
         tokenizer does not give back the tokens (up to comments / positions);
      6  the serializer model panics or is not error free where the
         implementation returned;
+     7  the token list /repo's Tokenize returned is outside `wf_tokens`, the
+        domain of theorem C20_roundtrip (the specification tokenizer never
+        leaves it: C20_tokenize_wf);
      4  (not a failure, counted as skipped) the model's bytes differ from the
         implementation's but both round-trip: a harmless rewrite;
      0  agreement: model bytes = implementation bytes, and both tokenizers
         agree on source and serialization. *)
-From Verif Require Export Css.Ser Css.RetokSpec.
+From Verif Require Export Css.Ser Css.RetokSpec Css.SerWf.
 From Coq Require Import List NArith Bool.
 Import ListNotations.
 
@@ -63,6 +66,7 @@ Definition check (c : case) : N :=
       if negb ok then 1%N
       else if negb (toks_eqb (tokenize skip src) ts) then 5%N
       else if negb (error_free ts) then 2%N
+      else if negb (wf_tokens ts) then 7%N
       else if negb (roundtrips goser ts) then 3%N
       else match serialize ts with
            | Ok s => if str_eqb s goser then 0%N
